@@ -121,6 +121,16 @@ func render(sh Shape) string {
 		return prelude + fmt.Sprintf("access(all) struct M { access(all) fun m(_ k: Int): Int { %s; %s%s; return self.m(k + 1) + 1 } }\naccess(all) fun main() { M().m(1) }", locals, depthLog, b)
 	case "interface-default-recursion":
 		return prelude + fmt.Sprintf("access(all) struct interface I { access(all) fun m(_ k: Int): Int { %s; %s%s; return self.m(k + 1) + 1 } }\naccess(all) struct M: I {}\naccess(all) fun main() { M().m(1) }", locals, depthLog, b)
+	case "map-callback-recursion":
+		return prelude + fmt.Sprintf("access(all) fun rec(_ k: Int): Int { %s; %s%s; return [k].map(fun (x: Int): Int { return rec(x + 1) + 1 })[0] }\naccess(all) fun main() { rec(1) }", locals, depthLog, b)
+	case "optional-map-recursion":
+		return prelude + fmt.Sprintf("access(all) fun rec(_ k: Int): Int { %s; %s%s; let o: Int? = k; return o.map(fun (x: Int): Int { return rec(x + 1) + 1 })! }\naccess(all) fun main() { rec(1) }", locals, depthLog, b)
+	case "forEachKey-recursion":
+		return prelude + fmt.Sprintf("access(all) fun rec(_ k: Int) { %s; %s%s; let dd = {k: k}; dd.forEachKey(fun (key: Int): Bool { rec(key + 1); return true }) }\naccess(all) fun main() { rec(1) }", locals, depthLog, b)
+	case "filter-callback-recursion":
+		return prelude + fmt.Sprintf("access(all) view fun rec(_ k: Int): Int { var n = 0; %s; return [k].filter(view fun (x: Int): Bool { return rec(x + 1) > 0 }).length }\naccess(all) fun main() { rec(1) }", pureBody(sh.Body))
+	case "constructor-recursion":
+		return prelude + fmt.Sprintf("access(all) struct Node { access(all) let depth: Int; init(_ k: Int) { %s; %s%s; self.depth = Node(k + 1).depth + 1 } }\naccess(all) fun main() { Node(1) }", locals, depthLog, b)
 	case "condition-recursion":
 		return prelude + fmt.Sprintf("access(all) view fun c(_ k: Int): Int { pre { c(k + 1) > 0 } return 1 }\naccess(all) fun main() { %s; %s; c(1) }", locals, b)
 	case "map-callback":
